@@ -113,25 +113,7 @@ pub fn c09_check(scn: &Scenario, h: &History) -> Outcome {
         out.viol(format!("[Notify] @{}: {}", f.pos, f.msg));
     }
     // (2) silent after unsubscribe() returned — direct/selector: typed Late findings; F5 signature
-    let mut late_by_sub: std::collections::HashMap<SubId, Vec<&crate::pipe::Finding>> = Default::default();
-    for f in p.findings.iter().filter(|f| f.kind == Kind::Late) {
-        late_by_sub.entry(f.sub.unwrap()).or_default().push(f);
-    }
-    for (sub, fs) in late_by_sub {
-        let iv = &sd.subs.iter().find(|(x, _)| *x == sub).unwrap().1;
-        let ur = iv.unsub_ret.unwrap();
-        let acts: HashSet<ActId> = fs.iter().filter_map(|f| f.act).collect();
-        let single_inflight = acts.len() == 1 && {
-            let a = *acts.iter().next().unwrap();
-            runs.iter().find(|r| r.act == a).map(|r| r.reduced_at < ur).unwrap_or(false)
-        };
-        let msg = format!("subscriber {} was notified of action(s) {:?} after its unsubscribe() had returned at @{}", sub, acts, ur);
-        if single_inflight {
-            out.known("notify-after-unsubscribe-inflight", msg);
-        } else {
-            out.viol(msg);
-        }
-    }
+    classify_late(&d, &p, s, true, &mut out);
     let stop_ret = sd.first_stop_ret.unwrap_or(usize::MAX);
     let shutdown_inv = sd.first_shutdown_inv.unwrap_or(usize::MAX);
     let mut has_direct = false;
@@ -245,7 +227,10 @@ pub static C09: Profile = Profile {
 pub fn c10_build(raw: &Raw, _tier: Tier, _sched: bool) -> Scenario {
     let mut b = ScnB::new();
     let cap = SMALL_CAPS[pick(knob(raw, 0), SMALL_CAPS.len())];
-    let s = b.store("c10", cap, Pol::Block, CTORS[pick(knob(raw, 1), 3)].clone());
+    // mostly a blocking store (so that every accepted action is notified); sometimes a drop policy:
+    // D1's stream is still the complete notification sequence of what the reducer took
+    let spol = [Pol::Block, Pol::Block, Pol::Block, Pol::DropLatest, Pol::DropOldest][(knob(raw, 13) % 5) as usize];
+    let s = b.store("c10", cap, spol, CTORS[pick(knob(raw, 1), 3)].clone());
     let reds = vec![b.reducer(s)];
     let ccap = SMALL_CAPS[pick(knob(raw, 2), SMALL_CAPS.len())];
     let cpol = POLS[pick(knob(raw, 3), 3)];
@@ -354,10 +339,14 @@ pub fn c10_check(scn: &Scenario, h: &History) -> Outcome {
     let sc = stream_of(h, c);
     let s2 = stream_of(h, d2);
     // a stalled subscriber never stalls reducing: every accepted action is reduced
-    for x in d.disps.iter().filter(|x| x.ok == Some(true)) {
-        if !runs.iter().any(|r| r.act == x.act) {
-            out.viol(format!("action {} was accepted but never reduced", x.act));
+    if scn.stores[s].policy == Pol::Block {
+        for x in d.disps.iter().filter(|x| x.ok == Some(true)) {
+            if !runs.iter().any(|r| r.act == x.act) {
+                out.viol(format!("action {} was accepted but never reduced", x.act));
+            }
         }
+    } else {
+        out.class("store-drop-policy");
     }
     // own thread
     let client_tids: HashSet<Tid> = h.recs.iter().filter(|r| matches!(r.ev, Ev::Inv { .. })).map(|r| r.tid).collect();
@@ -504,7 +493,7 @@ pub static C10: Profile = Profile {
     liveness: true,
     enumerate: None,
     extra: None,
-    assumptions: &["store policy is BlockOnFull so that the direct subscriber's stream is the full notification sequence"],
+    assumptions: &["the reference stream is that of a direct subscriber registered just before the channeled one (with a drop-policy store it contains what the reducer actually took)"],
 };
 
 // =============================================================================== C14
